@@ -404,7 +404,7 @@ class Gef:
                     for (g2, kind2, text2) in sub:
                         if kind2 == 'ret':
                             continue
-                        g3 = tuple(sorted(((subst(ct, argt), tr) for ct, tr in g2), key=str))
+                        g3 = tuple(sorted(((norm_eq(subst(ct, argt)), tr) for ct, tr in g2), key=str))
                         out.append((c.point, kind2, subst(text2, argt), g3))
                 else:
                     cargs = [self.term(a) for a in c.args]
@@ -769,6 +769,56 @@ def self_symmetric(form):
     only_b = [x for x in b if str(x) not in sa]
     d = 'no mirror counterpart for %s' % (fmt(only_a[0]) if only_a else fmt(only_b[0]))
     return True, False, d
+
+
+def locally_symmetric(form):
+    """weaker reading for a function that is not symmetric as a whole (it has a one-sided part, e.g. the successor
+    search of a removal): every which-side test `x == node(P).left` must still have mirror-image outcomes *relative to
+    that parent*: the effects under the test, with node(P).left and node(P).right exchanged, are the effects under its
+    negation.  Returns (ok, first difference)."""
+    import collections
+    a = canon_side(form)
+    conds = []
+    for g, _, _ in a:
+        for c, tr in g:
+            if isinstance(tr, bool) and is_side_cond(c) and c not in conds:
+                conds.append(c)
+    if not conds:
+        return False, 'no side condition'
+    for c in conds:
+        ops = split_eq(c)
+        if ops is None:
+            return False, 'unreadable side condition %s' % c
+        sides = [o for o in ops if o.endswith('.left')]
+        if len(sides) != 1:
+            return False, 'side condition %s does not compare with one child link' % c
+        l_term = sides[0]
+        r_term = l_term[:-len('.left')] + '.right'
+
+        def sw(x):
+            if not isinstance(x, str):
+                return x
+            return x.replace(l_term, '\0').replace(r_term, l_term).replace('\0', r_term)
+        t_side = collections.Counter((tuple(sorted(((norm_eq(sw(cc)), tt) for cc, tt in g if cc != c), key=str)), kind, sw(text)) for g, kind, text in a if (c, True) in g)
+        f_side = collections.Counter((tuple(sorted(((cc, tt) for cc, tt in g if cc != c), key=str)), kind, text) for g, kind, text in a if (c, False) in g)
+        if t_side != f_side:
+            only = list((t_side - f_side).elements()) or list((f_side - t_side).elements())
+            return False, 'under %s: no mirror counterpart for %s' % (c, fmt(only[0]))
+    return True, None
+
+
+def split_eq(c):
+    if not (c.startswith('Eq(') and c.endswith(')')):
+        return None
+    inner, depth = c[3:-1], 0
+    for i, ch in enumerate(inner):
+        if ch in '({':
+            depth += 1
+        elif ch in ')}':
+            depth -= 1
+        elif ch == ',' and depth == 0:
+            return inner[:i], inner[i + 1:]
+    return None
 
 
 def side_partitions(form):
